@@ -114,6 +114,11 @@ func (s *Server) handleCollections(w http.ResponseWriter, r *http.Request) {
 			return
 		}
 
+		if opts.DimensionCount < 1 || (opts.Quantization != 0 && !supportedQuantization(opts.Quantization)) {
+			writeErrorResponse(w, "Invalid vector size or quantization", http.StatusBadRequest)
+			return
+		}
+
 		name := opts.Name
 		opts.Name = s.collectionNameToFileName(name)
 
